@@ -39,6 +39,16 @@ Section C12.
      exists a, get_hash algorithm = Some a /\ hex_decode (f_hash fh) = Some (H a (List.concat chunks))).
   Proof. exact (C12_parsed_verifier H). Qed.
 
+  (* the lines themselves: "<hash> <size> <name>" and "<name> <hash>" parse to exactly those columns - in the two-column
+     form the first token is the name whatever it looks like (all hex digits, as long as a digest ...) *)
+  Theorem C12_parsed_three_columns : forall parse_int algorithm h sz nm n, h <> [] -> sz <> [] -> nm <> [] ->
+    forallb V3.nosp h = true -> forallb V3.nosp sz = true -> forallb V3.nosp nm = true -> parse_int sz = Some n ->
+    unmarshal_hash parse_int algorithm (h ++ GS.sp :: sz ++ GS.sp :: nm) = Some {| f_alg := algorithm; f_hash := h; f_size := n; f_name := nm |}.
+  Proof. exact H13.C12_parsed_line. Qed.
+  Theorem C12_parsed_two_columns : forall parse_int algorithm nm h, nm <> [] -> h <> [] -> forallb V3.nosp nm = true -> forallb V3.nosp h = true ->
+    unmarshal_hash parse_int algorithm (nm ++ GS.sp :: h) = Some {| f_alg := algorithm; f_hash := h; f_size := 0%Z; f_name := nm |}.
+  Proof. exact H13.C12_parsed_two_columns. Qed.
+
   (* through the best-checksum selector *)
   Theorem C12_best_checksums : forall l256 l512 fh chunks,
     Forall (fun e => f_alg e = s "sha256") l256 -> Forall (fun e => f_alg e = s "sha512") l512 ->
